@@ -31,6 +31,7 @@ import (
 	"path/filepath"
 	"sort"
 	"strings"
+	"syscall"
 	"sync"
 	"testing"
 	"time"
@@ -391,6 +392,9 @@ func TestVerif_C19(t *testing.T) {
 		specs = append(specs, spec{"p384", true, true, "admin"}, spec{"rsa", false, true, "alice"})
 	}
 	var runs []*c19Run
+	origUmask := syscall.Umask(022)
+	syscall.Umask(origUmask)
+	defer syscall.Umask(origUmask)
 	for _, sp := range specs {
 		pref, agentPresent := sp.pref, sp.agentPresent
 		{
@@ -430,7 +434,26 @@ func TestVerif_C19(t *testing.T) {
 			if agentPresent && !sp.otp {
 				nRuns = 2
 			}
+			if !agentPresent && !sp.otp && pref != "rsa" {
+				// key files: again into the same HOME, over files that others can read (umask 022), and
+				// once more over its own output (umask 077)
+				nRuns = 3
+			}
 			for rn := 0; rn < nRuns; rn++ {
+				syscall.Umask(origUmask)
+				if !agentPresent && rn > 0 {
+					if rn == 1 {
+						filepath.Walk(home, func(p string, fi os.FileInfo, err error) error {
+							if err == nil && !fi.IsDir() && c19LooksPrivate(p) {
+								os.Chmod(p, 0644)
+							}
+							return nil
+						})
+						syscall.Umask(022)
+					} else {
+						syscall.Umask(077)
+					}
+				}
 				run := &c19Run{pref: pref, agentPresent: agentPresent, second: rn == 1, otp: sp.otp, user: sp.user, privs: map[int]interface{}{}}
 				cas, target, password := rootCAs, info["url"], info["password"]
 				if sp.otp {
